@@ -144,6 +144,15 @@ func gen(tier string) []proto.Item {
 			items = append(items, proto.Item{Scn: s, Class: fmt.Sprintf("%s/destination-answer-arrives-in-the-next-probes-window/%dms", v, late/1000)})
 		}
 	}
+	// the write of probe k is refused once (a transient send failure): the run may fail - but if it goes on and reports the
+	// hop, the hop's time is measured from the moment its probe was really put on the wire
+	for _, v := range proto.Variants {
+		for _, k := range []int{1, 2, 3} {
+			s := proto.Scn{Variant: v, First: 1, Last: 5, Dest: 4, IPIDBase: 500, EchoBase: 41, TimeoutMs: 500, DelayMs: 10}
+			s.Faults = []simnet.Fault{{Op: "WriteTo", K: k, Class: "fatal"}}
+			items = append(items, proto.Item{Scn: s, Class: fmt.Sprintf("%s/write-of-probe-%d-refused-once", v, k), Note: map[string]string{"error_ok": "1"}})
+		}
+	}
 	items = append(items, ForwardReorder(tier, 500, 41)...)
 	return items
 }
@@ -189,6 +198,9 @@ func ForwardReorder(tier string, ipid, echo uint32) []proto.Item {
 
 func check(it *proto.Item, r *proto.Result) []proto.Issue {
 	if r.Obs[0].Err != nil {
+		if it.Note["error_ok"] != "" {
+			return nil
+		}
 		return []proto.Issue{{Key: "run-error", Detail: r.Obs[0].Err.Error()}}
 	}
 	return proto.RTT(&it.Scn, r, 0)
